@@ -112,6 +112,8 @@ class Resolver:
         _depth: int = 0,
     ) -> list[str]:
         """Class names the value of ``node`` may have (outermost heads)."""
+        if not self._persistent(fi, node):
+            return self._classes_of(fi, node, recv_cls, _depth)
         key = (fi.qualname, id(node), recv_cls.qualname if recv_cls else None)
         hit = self._memo_cls.get(key)
         if hit is not None:
@@ -119,6 +121,18 @@ class Resolver:
         r = self._classes_of(fi, node, recv_cls, _depth)
         self._memo_cls[key] = r
         return r
+
+    @staticmethod
+    def _persistent(fi: FuncInfo, node: ast.AST) -> bool:
+        """Memo tables are keyed by ``id(node)``: that is only an identity for
+        nodes that stay alive, i.e. nodes of the (flattened) function's tree.
+        Temporary copies made while expanding expressions are freed, their ids
+        are reused by later copies, and a memo hit would then belong to another
+        node - so they are never memoised."""
+        try:
+            return node in fi.module.parents
+        except Exception:
+            return False
 
     def _classes_of(self, fi, node, recv_cls, _depth):
         self.consumed += 1
@@ -320,6 +334,8 @@ class Resolver:
     ) -> tuple[list[FuncInfo], str | None]:
         """Package functions a call may reach, plus a printable qualified
         name (also for external callees, e.g. ``random.choice``)."""
+        if not self._persistent(fi, call):
+            return self._callees(fi, call, recv_cls)
         key = (fi.qualname, id(call), recv_cls.qualname if recv_cls else None)
         hit = self._memo_callees.get(key)
         if hit is None:
@@ -448,6 +464,8 @@ class Resolver:
     ) -> FuncInfo | None:
         """The @property getter (or setter, for stores) ``node`` invokes."""
         key = (fi.qualname, id(node), recv_cls.qualname if recv_cls else None)
+        if not self._persistent(fi, node):
+            return self._property_target(fi, node, recv_cls)
         if key not in self._memo_prop:
             self._memo_prop[key] = self._property_target(fi, node, recv_cls)
         return self._memo_prop[key]
